@@ -130,6 +130,17 @@ CHECKS = {
         note='Trusted: Lean kernel; standard axioms; hand model tied by correspondence; formula evaluation = the C13 fragment evaluator; sub-expression methods and their '
              'numbering/de-duplication are not in the abstract model (covered by slice-vs-whole values on shared-prefix graphs); COLUMN(area) spill emulation is not generated.',
         technique='Lean 4 proof (DFS invariants: closure, topological order, path/cycle, pigeonhole termination) + differential correspondence + slice-vs-whole law', design='5/C03'),
+    'C05': dict(
+        text='Lean 4 theorems over a generic interpreter of the token-set parser (CompositeBaseToken.get incl. the control-construction flag, AstBuilder.parse), valid for EVERY '
+             'grammar table: the leaves of a returned tree followed by the unconsumed rest are exactly the input tokens (yield_exact: nothing dropped, duplicated, invented); '
+             'an accepted formula covers the whole token list and every other outcome is the parser exception (whole_or_rejected, no_silent_truncation); every node of a '
+             'returned tree instantiates, in order, one of the token sets of its class (derivation_sound: a supported function is never accepted with an argument list the '
+             'grammar does not define). On the table regenerated from the source (Tie A): keywords_longest_first, generated_symbols_defined (decide). '
+             'Tie B: random derivations of the repository\'s own grammar (all functions, all argument shapes) and mutants, real Lexer + AstBuilder vs the Lean interpreter on the '
+             'regenerated table (tree shape / reject), leaves-vs-tokens on the real tree, whitespace and ,/; laws through evaluation.',
+        note='Trusted: Lean kernel; standard axioms; extraction of the grammar from the imported classes; the regex lexer itself is not modelled in Lean - its whitespace/separator '
+             'behaviour is a law checked on the real code; depth exhaustion of the interpreter is excluded by fuel 300 in the driver (generated nesting is far shallower).',
+        technique='Lean 4 proof generic in the grammar table (Tie A regenerates the table) + differential correspondence of the interpreter + laws on the real code', design='5/C05'),
 }
 
 WIP = set()   # built, proofs in progress: not claimed until green
